@@ -628,7 +628,10 @@ func c07R2(c *Ctx) {
 		fields = append(fields, fActions)
 	}
 	for _, f := range fields {
-		ws := P.FieldWrites(f)
+		ws := P.HoistWrites(P.FieldWrites(f), func(fn *ssa.Function) bool {
+			n := FuncName(fn)
+			return n == "hopserver.(*hopSession).checkAuthorization" || n == "hopserver.(*hopSession).checkCmd"
+		})
 		for _, w := range ws {
 			wn := FuncName(w.Fn)
 			if isGateInput[f] {
